@@ -53,7 +53,11 @@ type codec struct {
 	// extensions may appear together, in which order) that the encoder does not check; a value the
 	// decoder refuses is then not a defect, but a value it accepts must come back unchanged.
 	ctxRules bool
-	gen      func(t *rapid.T) any // optional value generator
+	// strict: the codec has exactly one encoding per value and its decoder normalises nothing, so an
+	// accepted input must be byte-identical to its re-encoding (anything else means that bytes were
+	// ignored or invented).
+	strict bool
+	gen    func(t *rapid.T) any // optional value generator
 	// domain, if set, says whether a generated value lies in the wire-representable domain of the
 	// codec (field widths, known enum values); full value equality is asserted only there.
 	domain func(v any) bool
@@ -132,6 +136,8 @@ func genBytes(t *rapid.T, label string, lo, hi int) []byte {
 }
 
 func ctxRules(c *codec) *codec { c.ctxRules = true; return c }
+
+func strict(c *codec) *codec { c.strict = true; return c }
 
 // genExtList draws a list of extension values for one message context from the payload codecs
 // registered under the given names (each at most once, generated order), plus optional
@@ -285,8 +291,12 @@ func init() {
 	reg(msg[recordlayer.CiphertextRecord13]("record.CiphertextRecord13/cid4", func(r *recordlayer.CiphertextRecord13) { r.Header.ConnectionID = make([]byte, 4) }))
 	// content
 	reg(withGen[alert.Alert](msg[alert.Alert]("alert", nil)))
-	reg(dom(withGen[protocol.ACK](msg[protocol.ACK]("ack", nil)), func(*protocol.ACK) bool { return true }))
-	reg(withGen[protocol.ReturnRoutabilityCheck](msg[protocol.ReturnRoutabilityCheck]("rrc", nil)))
+	reg(strict(dom(withGen[protocol.ACK](msg[protocol.ACK]("ack", nil)), func(*protocol.ACK) bool { return true })))
+	// unknown rrc_msg_type values are "gracefully ignored" (RFC 9853 4.2): the decoder clears their
+	// cookie, so only the three defined types are in the round-trip domain
+	reg(dom(withGen[protocol.ReturnRoutabilityCheck](msg[protocol.ReturnRoutabilityCheck]("rrc", nil)), func(m *protocol.ReturnRoutabilityCheck) bool {
+		return m.MessageType <= protocol.ReturnRoutabilityCheckPathDrop
+	}))
 	reg(msg[protocol.ChangeCipherSpec]("ccs", nil))
 	// handshake
 	reg(dom(withGen[handshake.Header](msg[handshake.Header]("hs.Header", nil)), func(h *handshake.Header) bool {
@@ -479,6 +489,11 @@ func checkBytes(c *codec, b []byte, mode string, e []byte, r *pbt.R) result {
 	err, p, st = safely(func() error { return c.unmarshal(v2, b1) })
 	if p != nil || err != nil {
 		r.Failf("C18|"+c.name+"|canonical-form-rejected", "input %x re-encodes to %x which the decoder rejects: %v %v", b, b1, err, p)
+
+		return result{}
+	}
+	if c.strict && !bytes.Equal(b1, b) {
+		r.Failf("C18|"+c.name+"|accepted-input-differs-from-its-re-encoding", "input %x was accepted and re-encodes to %x: bytes of the input were ignored or replaced", b, b1)
 
 		return result{}
 	}
